@@ -216,3 +216,64 @@ func emptyValue(v reflect.Value, depth int) int {
 	}
 	return n
 }
+
+// StructFieldFor locates the Go struct field that holds fd (non-oneof) through its protobuf tag.
+func StructFieldFor(p proto.Message, num int) reflect.Value {
+	v := reflect.ValueOf(p).Elem()
+	t := v.Type()
+	for i := 0; i < t.NumField(); i++ {
+		tag := t.Field(i).Tag.Get("protobuf")
+		parts := strings.Split(tag, ",")
+		if len(parts) >= 2 {
+			if n, err := strconv.Atoi(parts[1]); err == nil && n == num {
+				return v.Field(i)
+			}
+		}
+	}
+	return reflect.Value{}
+}
+
+// InjectNil adds a nil message to the list field / a nil message value (under a key not present yet) to
+// the map field numbered num of the generated struct; returns false if the field is not such a field.
+func InjectNil(p proto.Message, num int) bool {
+	f := StructFieldFor(p, num)
+	if !f.IsValid() {
+		return false
+	}
+	switch f.Kind() {
+	case reflect.Slice:
+		if f.Type().Elem().Kind() != reflect.Ptr {
+			return false
+		}
+		f.Set(reflect.Append(f, reflect.Zero(f.Type().Elem())))
+		return true
+	case reflect.Map:
+		if f.Type().Elem().Kind() != reflect.Ptr {
+			return false
+		}
+		if f.IsNil() {
+			f.Set(reflect.MakeMap(f.Type()))
+		}
+		// a key that sorts after typical alphabet keys and is not present
+		k := reflect.New(f.Type().Key()).Elem()
+		switch k.Kind() {
+		case reflect.String:
+			k.SetString("zz-nil-value")
+		case reflect.Bool:
+			k.SetBool(true)
+			if f.MapIndex(k).IsValid() {
+				k.SetBool(false)
+			}
+		case reflect.Int32, reflect.Int64:
+			k.SetInt(77)
+		case reflect.Uint32, reflect.Uint64:
+			k.SetUint(77)
+		}
+		if f.MapIndex(k).IsValid() {
+			return false
+		}
+		f.SetMapIndex(k, reflect.Zero(f.Type().Elem()))
+		return true
+	}
+	return false
+}
